@@ -63,6 +63,11 @@ class SectionOutput(Output):
         self.write_line(message)
 
     def add_content(self, content):  # type: (str) -> None
+        if not self._may_write(None):
+            # What is on record is printed again whenever a section above this
+            # one is written to: a quiet section must not record anything
+            return
+
         if self._indent > 0:
             # (like Output.write: an empty line gets no indentation)
             content = "\n".join(
